@@ -33,6 +33,12 @@ theorem renderW_length (ls : List Lex) (hok : ∀ l ∈ ls, LexOK l) (W : List S
     simp only [renderW, List.length_append, List.length_cons]
     omega
 
+theorem renderWT_length (T : Str) (ls : List Lex) (hok : ∀ l ∈ ls, LexOK l) (W : List Str) :
+    ls.length ≤ (renderWT T ls W).length := by
+  rw [renderWT_eq, List.length_append]
+  have := renderW_length ls hok W
+  omega
+
 theorem groupLexemes_ok (g : List Tok) (h : wfToks g = true) : ∀ l ∈ groupLexemes g, LexOK l := by
   intro l hl
   simp only [groupLexemes, List.mem_cons, List.mem_append, List.not_mem_nil, or_false] at hl
@@ -54,13 +60,13 @@ theorem groupsLexemes_ok (gs : List (List Tok)) (h : gs.all wfToks = true) :
     · exact ih h.2 l hl
 
 /-- **stage "argument groups"** -/
-theorem groups_rt : ∀ (gs : List (List Tok)) (prev : Option Lex) (more : List Lex) (W : List Str)
+theorem groups_rtT (T : Str) (hT : TailOK T) : ∀ (gs : List (List Tok)) (prev : Option Lex) (more : List Lex) (W : List Str)
     (ln : Nat), gs.all wfToks = true → (∀ x ∈ more, LexOK x) →
     GoodW prev (groupsLexemes gs ++ more) W →
-    ∃ W' ln', parseGroups gs.length ⟨renderW (groupsLexemes gs ++ more) W, ln⟩
-        = .ok (gs, ⟨renderW more W', ln'⟩) ∧
+    ∃ W' ln', parseGroups gs.length ⟨renderWT T (groupsLexemes gs ++ more) W, ln⟩
+        = .ok (gs, ⟨renderWT T more W', ln'⟩) ∧
       GoodW (if gs = [] then prev else some .rb) more W' ∧
-      ln' + nl (renderW more W') = ln + nl (renderW (groupsLexemes gs ++ more) W) ∧
+      ln' + nl (renderWT T more W') = ln + nl (renderWT T (groupsLexemes gs ++ more) W) ∧
       W' = W.drop (groupsLexemes gs).length := by
   intro gs
   induction gs with
@@ -83,7 +89,7 @@ theorem groups_rt : ∀ (gs : List (List Tok)) (prev : Option Lex) (more : List 
       · exact groupsLexemes_ok gs hwf.2 x hx
       · exact hmore x hx
     have hreq := required_text [(TokKind.lbrace, lbracePat)] .lbrace ['{']
-      (renderW (lexemesList g ++ .rb :: (groupsLexemes gs ++ more)) W.tail) (W.headD [])
+      (renderWT T (lexemesList g ++ .rb :: (groupsLexemes gs ++ more)) W.tail) (W.headD [])
       (by simp) (by simp [headSat, isWs, wsCodes]) hw
       (by simp [firstMatch, lbracePat, litPat, matchLit]) none false ln
     have hallok : ∀ x ∈ lexemesList g ++ .rb :: (groupsLexemes gs ++ more), LexOK x := by
@@ -94,12 +100,12 @@ theorem groups_rt : ∀ (gs : List (List Tok)) (prev : Option Lex) (more : List 
       · trivial
       · exact hmore' x (by simpa using hx)
     have hfuel : (lexemesList g).length + 1 ≤
-        (renderW (lexemesList g ++ .rb :: (groupsLexemes gs ++ more)) W.tail).length + 1 := by
-      have := renderW_length _ hallok W.tail
+        (renderWT T (lexemesList g ++ .rb :: (groupsLexemes gs ++ more)) W.tail).length + 1 := by
+      have := renderWT_length T _ hallok W.tail
       simp only [List.length_append, List.length_cons] at this
       omega
     obtain ⟨W1, ln1, hp1, hgood1, hcons1, hdrop1⟩ :=
-      group_rt g (some .lb) (groupsLexemes gs ++ more) W.tail (ln + (W.headD []).count '\n') _
+      group_rtT T hT g (some .lb) (groupsLexemes gs ++ more) W.tail (ln + (W.headD []).count '\n') _
         hwf.1 hmore' hg' hfuel
     obtain ⟨W2, ln2, hp2, hgood2, hcons2, hdrop2⟩ := ih (some .rb) more W1 ln1 hwf.2 hmore hgood1
     refine ⟨W2, ln2, ?_, ?_, ?_, ?_⟩
@@ -107,7 +113,7 @@ theorem groups_rt : ∀ (gs : List (List Tok)) (prev : Option Lex) (more : List 
     · rw [hdrop2, hdrop1, tail_drop, List.drop_drop]
       congr 1
       simp [groupsLexemes, groupLexemes]; omega
-    · simp only [List.length_cons, parseGroups, renderW]
+    · simp only [List.length_cons, parseGroups, renderWT]
       simp only [Lex.text, List.singleton_append] at hreq ⊢
       rw [hreq]
       simp only [parseGroup, hp1, hp2]
@@ -116,8 +122,18 @@ theorem groups_rt : ∀ (gs : List (List Tok)) (prev : Option Lex) (more : List 
       · simpa [hgs] using hgood2
       · simpa [hgs] using hgood2
     · rw [hcons2, hcons1]
-      simp only [renderW, nl_append, Lex.text]
+      simp only [renderWT, nl_append, Lex.text]
       simp only [nl]; simp; omega
+
+theorem groups_rt : ∀ (gs : List (List Tok)) (prev : Option Lex) (more : List Lex) (W : List Str)
+    (ln : Nat), gs.all wfToks = true → (∀ x ∈ more, LexOK x) →
+    GoodW prev (groupsLexemes gs ++ more) W →
+    ∃ W' ln', parseGroups gs.length ⟨renderW (groupsLexemes gs ++ more) W, ln⟩
+        = .ok (gs, ⟨renderW more W', ln'⟩) ∧
+      GoodW (if gs = [] then prev else some .rb) more W' ∧
+      ln' + nl (renderW more W') = ln + nl (renderW (groupsLexemes gs ++ more) W) ∧
+      W' = W.drop (groupsLexemes gs).length := by
+  simpa only [renderWT_nil] using groups_rtT [] TailOK.nil
 
 theorem cmdArity_of_wf {c : Command} (h : wfCommand c = true) :
     wfName c.name = true ∧ cmdArity c.name = some c.groups.length ∧ c.groups.all wfToks = true := by
@@ -146,12 +162,12 @@ theorem program_lexemes_ok (p : Program) (h : WFProg p) : ∀ l ∈ Program.lexe
     · exact ih h.2 l hl
 
 /-- **stage "command"** -/
-theorem command_rt (c : Command) (prev : Option Lex) (more : List Lex) (W : List Str) (ln : Nat)
+theorem command_rtT (T : Str) (hT : TailOK T) (c : Command) (prev : Option Lex) (more : List Lex) (W : List Str) (ln : Nat)
     (hwf : wfCommand c = true) (hmore : ∀ x ∈ more, LexOK x)
     (hg : GoodW prev (c.lexemes ++ more) W) :
-    ∃ W' ln' prev', parseCommand ⟨renderW (c.lexemes ++ more) W, ln⟩
-        = .ok (c, ⟨renderW more W', ln'⟩) ∧ GoodW prev' more W' ∧
-      ln' + nl (renderW more W') = ln + nl (renderW (c.lexemes ++ more) W) ∧
+    ∃ W' ln' prev', parseCommand ⟨renderWT T (c.lexemes ++ more) W, ln⟩
+        = .ok (c, ⟨renderWT T more W', ln'⟩) ∧ GoodW prev' more W' ∧
+      ln' + nl (renderWT T more W') = ln + nl (renderWT T (c.lexemes ++ more) W) ∧
       W' = W.drop c.lexemes.length := by
   obtain ⟨h1, h2, h3⟩ := cmdArity_of_wf hwf
   obtain ⟨n1, n2, _⟩ := wfName_ok h1
@@ -159,10 +175,10 @@ theorem command_rt (c : Command) (prev : Option Lex) (more : List Lex) (W : List
     simp [Command.lexemes]
   rw [hlex] at hg ⊢
   obtain ⟨hw, _, hg'⟩ := hg
-  have hfol := follows_of_good (.word c.name) _ _ hg'
+  have hfol := follows_of_goodT T hT (.word c.name) _ _ hg'
   have hok : LexOK (.word c.name) := ⟨n1, n2⟩
   have hreq := required_text [(TokKind.name, namePat)] .name c.name
-    (renderW (groupsLexemes c.groups ++ more) W.tail) (W.headD []) n1 (lex_text_head _ hok) hw
+    (renderWT T (groupsLexemes c.groups ++ more) W.tail) (W.headD []) n1 (lex_text_head _ hok) hw
     (by
       cases hn : c.name with
       | nil => exact absurd hn n1
@@ -172,14 +188,23 @@ theorem command_rt (c : Command) (prev : Option Lex) (more : List Lex) (W : List
         simp only [firstMatch, namePat, runPat, List.cons_append, this])
     (some "BST command".toList) true ln
   obtain ⟨W1, ln1, hp1, hgood1, hcons1, hdrop1⟩ :=
-    groups_rt c.groups (some (.word c.name)) more W.tail (ln + (W.headD []).count '\n') h3 hmore hg'
+    groups_rtT T hT c.groups (some (.word c.name)) more W.tail (ln + (W.headD []).count '\n') h3 hmore hg'
   refine ⟨W1, ln1, _, ?_, hgood1, ?_, by rw [hdrop1, tail_drop]; simp [Command.lexemes]⟩
-  · simp only [parseCommand, renderW, Lex.text]
+  · simp only [parseCommand, renderWT, Lex.text]
     rw [hreq]
     simp only [cmdArityM_eq, h2, hp1]
   · rw [hcons1]
-    simp only [renderW, nl_append, lex_text_no_nl _ hok]
+    simp only [renderWT, nl_append, lex_text_no_nl _ hok]
     simp only [nl]; omega
+
+theorem command_rt (c : Command) (prev : Option Lex) (more : List Lex) (W : List Str) (ln : Nat)
+    (hwf : wfCommand c = true) (hmore : ∀ x ∈ more, LexOK x)
+    (hg : GoodW prev (c.lexemes ++ more) W) :
+    ∃ W' ln' prev', parseCommand ⟨renderW (c.lexemes ++ more) W, ln⟩
+        = .ok (c, ⟨renderW more W', ln'⟩) ∧ GoodW prev' more W' ∧
+      ln' + nl (renderW more W') = ln + nl (renderW (c.lexemes ++ more) W) ∧
+      W' = W.drop c.lexemes.length := by
+  simpa only [renderWT_nil] using command_rtT [] TailOK.nil c prev more W ln hwf hmore hg
 
 /-- at the end of the text `parse_command` signals `EOFError` -/
 theorem parseCommand_eof (w : Str) (hw : White w) (ln : Nat) :
@@ -218,22 +243,22 @@ theorem program_rt : ∀ (p : Program) (prev : Option Lex) (W : List Str) (ln fu
 /-- **stage "program", with a continuation**: the commands of a well-formed program are read
 one by one; parsing goes on behind them with the white strings that are left and the line
 number advanced by the `\n`s passed -/
-theorem program_prefix_rt : ∀ (p : Program) (prev : Option Lex) (more : List Lex) (W : List Str)
+theorem program_prefix_rtT (T : Str) (hT : TailOK T) : ∀ (p : Program) (prev : Option Lex) (more : List Lex) (W : List Str)
     (ln fuel : Nat), WFProg p → (∀ x ∈ more, LexOK x) → GoodW prev (Program.lexemes p ++ more) W →
-    ∃ ln' prev', parseF (fuel + p.length) ⟨renderW (Program.lexemes p ++ more) W, ln⟩
-        = (match parseF fuel ⟨renderW more (W.drop (Program.lexemes p).length), ln'⟩ with
+    ∃ ln' prev', parseF (fuel + p.length) ⟨renderWT T (Program.lexemes p ++ more) W, ln⟩
+        = (match parseF fuel ⟨renderWT T more (W.drop (Program.lexemes p).length), ln'⟩ with
            | .error e => .error e
            | .ok q => .ok (p ++ q)) ∧
       GoodW prev' more (W.drop (Program.lexemes p).length) ∧
-      ln' + nl (renderW more (W.drop (Program.lexemes p).length))
-        = ln + nl (renderW (Program.lexemes p ++ more) W) := by
+      ln' + nl (renderWT T more (W.drop (Program.lexemes p).length))
+        = ln + nl (renderWT T (Program.lexemes p ++ more) W) := by
   intro p
   induction p with
   | nil =>
     intro prev more W ln fuel _ _ hg
     refine ⟨ln, prev, ?_, by simpa [Program.lexemes] using hg, by simp [Program.lexemes]⟩
     simp only [Program.lexemes, List.nil_append, List.length_nil, Nat.add_zero, List.drop_zero]
-    cases parseF fuel ⟨renderW more W, ln⟩ <;> rfl
+    cases parseF fuel ⟨renderWT T more W, ln⟩ <;> rfl
   | cons c p ih =>
     intro prev more W ln fuel hwf hmore hg
     have hwf' := hwf
@@ -250,7 +275,7 @@ theorem program_prefix_rt : ∀ (p : Program) (prev : Option Lex) (more : List L
       · exact hmore x hx
     rw [hlex] at hg ⊢
     obtain ⟨W1, ln1, prev1, hp1, hgood1, hcons1, hdrop1⟩ :=
-      command_rt c prev (Program.lexemes p ++ more) W ln hwf'.1 hmore' hg
+      command_rtT T hT c prev (Program.lexemes p ++ more) W ln hwf'.1 hmore' hg
     obtain ⟨ln2, prev2, hp2, hgood2, hcons2⟩ := ih prev1 more W1 ln1 fuel hwfp hmore hgood1
     have hd : W1.drop (Program.lexemes p).length = W.drop (Program.lexemes (c :: p)).length := by
       rw [hdrop1, List.drop_drop]; congr 1; simp [Program.lexemes]
@@ -259,7 +284,18 @@ theorem program_prefix_rt : ∀ (p : Program) (prev : Option Lex) (more : List L
     have hf : fuel + (c :: p).length = (fuel + p.length) + 1 := by simp; omega
     rw [hf]
     simp only [parseF, hp1, hp2]
-    cases parseF fuel ⟨renderW more (W.drop (Program.lexemes (c :: p)).length), ln2⟩ <;> rfl
+    cases parseF fuel ⟨renderWT T more (W.drop (Program.lexemes (c :: p)).length), ln2⟩ <;> rfl
+
+theorem program_prefix_rt : ∀ (p : Program) (prev : Option Lex) (more : List Lex) (W : List Str)
+    (ln fuel : Nat), WFProg p → (∀ x ∈ more, LexOK x) → GoodW prev (Program.lexemes p ++ more) W →
+    ∃ ln' prev', parseF (fuel + p.length) ⟨renderW (Program.lexemes p ++ more) W, ln⟩
+        = (match parseF fuel ⟨renderW more (W.drop (Program.lexemes p).length), ln'⟩ with
+           | .error e => .error e
+           | .ok q => .ok (p ++ q)) ∧
+      GoodW prev' more (W.drop (Program.lexemes p).length) ∧
+      ln' + nl (renderW more (W.drop (Program.lexemes p).length))
+        = ln + nl (renderW (Program.lexemes p ++ more) W) := by
+  simpa only [renderWT_nil] using program_prefix_rtT [] TailOK.nil
 
 theorem program_length_le (p : Program) : p.length ≤ (Program.lexemes p).length := by
   induction p with
